@@ -229,6 +229,9 @@ type mutant struct {
 	failWithData     bool
 	failErr          error // the error the source reports (nil: errBoom)
 	srcErr           bool
+	// intact: the document is NOT modified (overlap mode): the stream must give
+	// exactly the plaintext and a clean EOF
+	intact bool
 }
 
 func (m *mutant) length() int {
@@ -332,10 +335,24 @@ type outcome struct {
 	term   error
 	stuck  bool
 	style  string
+	// abandoned: the consumer stopped reading before the stream ended (overlap
+	// mode); only what was read so far can be judged
+	abandoned bool
 }
 
-// run gives the mutant to the real kit.Decrypt and reads the stream to its end.
-func run(m *mutant, rng *mon.RNG) (o outcome) {
+// session is one Decrypt stream that can be read piecewise, so that other
+// operations can be run while it is half consumed.
+type session struct {
+	o    outcome
+	dr   io.Reader
+	done bool
+	buf  []byte
+}
+
+// start gives the mutant to the real kit.Decrypt.
+func start(m *mutant, rng *mon.RNG) *session {
+	s := &session{}
+	o := &s.o
 	r := &partsReader{parts: m.parts, limit: m.length(), rng: rng}
 	o.style = "all-at-once"
 	if m.srcErr {
@@ -358,39 +375,69 @@ func run(m *mutant, rng *mon.RNG) (o outcome) {
 	if uw == nil {
 		uw = unwrapA
 	}
-	var dr io.Reader
 	func() {
 		defer func() {
 			if p := recover(); p != nil {
 				o.decErr = fmt.Errorf("PANIC in Decrypt: %v", p)
 			}
 		}()
-		dr, o.decErr = enc.Decrypt(r, enc.DecryptOptions{UnwrapKeyFn: uw})
+		s.dr, o.decErr = enc.Decrypt(r, enc.DecryptOptions{UnwrapKeyFn: uw})
 	}()
 	if o.decErr != nil {
-		return o
+		s.done = true
+		return s
 	}
 	// From here on kit works on its own goroutine, where a panic cannot be
 	// recovered: journal the input first so that the driver finds it.
 	rec.Step(m.class + "@" + m.pos + " " + m.desc + " [" + o.style + "]")
-	buf := make([]byte, 32<<10)
+	s.buf = make([]byte, 32<<10)
+	return s
+}
+
+// read consumes up to limit more bytes of the stream (limit < 0: to its end).
+func (s *session) read(limit int) {
 	empty := 0
-	for {
-		n, err := dr.Read(buf)
-		o.got = append(o.got, buf[:n]...)
+	for !s.done && limit != 0 {
+		p := s.buf
+		if limit > 0 && limit < len(p) {
+			p = p[:limit]
+		}
+		n, err := s.dr.Read(p)
+		s.o.got = append(s.o.got, p[:n]...)
+		if limit > 0 {
+			limit -= n
+		}
 		if err != nil {
-			o.term = err
-			return o
+			s.o.term = err
+			s.done = true
+			return
 		}
 		if n == 0 {
 			if empty++; empty > 1000 {
-				o.stuck = true
-				return o
+				s.o.stuck = true
+				s.done = true
+				return
 			}
 		} else {
 			empty = 0
 		}
 	}
+}
+
+// abandon gives up a half-read stream (closing it if it can be closed, so
+// that kit's goroutine ends).
+func (s *session) abandon() {
+	if c, ok := s.dr.(io.Closer); ok && !s.done {
+		c.Close()
+	}
+	s.done = true
+}
+
+// run gives the mutant to the real kit.Decrypt and reads the stream to its end.
+func run(m *mutant, rng *mon.RNG) outcome {
+	s := start(m, rng)
+	s.read(-1)
+	return s.o
 }
 
 // ------------------------------------------------------------------ the oracle
@@ -439,11 +486,48 @@ func (j *judgeCtx) judge(m *mutant) {
 			return
 		}
 	}
+	j.evaluate(m, run(m, j.rng))
+}
+
+// evaluate applies the statement's rule to what one Decrypt stream did.
+func (j *judgeCtx) evaluate(m *mutant, o outcome) {
+	b := j.b
 	j.n++
 	rec.Progress()
-	o := run(m, j.rng)
 	site := m.class + "@" + m.pos
 	prefix := bytes.HasPrefix(b.pt, o.got)
+	if m.intact || o.abandoned {
+		// overlap mode: an unmodified document must decrypt exactly; of a stream given
+		// up half-way only the prefix rule (and, if intact, "no error so far") can be judged
+		bad := ""
+		switch {
+		case o.decErr != nil && strings.HasPrefix(o.decErr.Error(), "PANIC"):
+			bad = "panic"
+		case !prefix:
+			bad = "released-bytes-not-a-prefix-of-the-plaintext"
+		case m.intact && o.decErr != nil:
+			bad = "valid-document-rejected"
+		case m.intact && o.term != nil && o.term != io.EOF:
+			bad = "valid-document-stream-error"
+		case m.intact && !o.abandoned && (o.stuck || len(o.got) != len(b.pt)):
+			bad = "valid-document-short"
+		}
+		if bad != "" {
+			rec.Violation(j.idx, site+"/"+bad, fmt.Sprintf("%s: decrypt err=%v, stream err=%v, %d bytes released, plaintext has %d, first difference at %d [%s; %s]",
+				site, o.decErr, o.term, len(o.got), len(b.pt), firstDiff(o.got, b.pt), m.desc, b.String()), j.replay(m, o))
+			return
+		}
+		if m.intact && !o.abandoned {
+			rec.Count("overlap.intact_stream_exact", 1)
+		}
+		if o.abandoned {
+			rec.Count("overlap.abandoned_stream_prefix_ok", 1)
+		}
+		if m.intact || o.term == nil {
+			return
+		}
+		// an abandoned mutant stream that had already ended: judged like any other, below
+	}
 	viol := func(out, msg string) {
 		rec.Violation(j.idx, site+"/"+out, fmt.Sprintf("%s: %s [%s; %s]", site, msg, m.desc, b.String()), j.replay(m, o))
 	}
@@ -542,6 +626,18 @@ func (j *judgeCtx) judge(m *mutant) {
 		}
 	}
 	rec.Count("rejected_or_identical."+m.class, 1)
+}
+
+func firstDiff(a, b []byte) int {
+	for i := 0; i < len(a) && i < len(b); i++ {
+		if a[i] != b[i] {
+			return i
+		}
+	}
+	if len(a) == len(b) {
+		return -1
+	}
+	return min(len(a), len(b))
 }
 
 // ------------------------------------------------------------------ position classes
@@ -654,6 +750,7 @@ var families = []family{
 	{"header-edit+drop-payload", famHeaderDropPayload},
 	{"source-error", famSourceError},
 	{"compound", famCompound},
+	{"overlap", famOverlap},
 }
 
 func famBitflipHeader(j *judgeCtx) {
@@ -1271,7 +1368,7 @@ func TestCheck(t *testing.T) {
 		"segment delete/duplicate/append/swap/drop-tail/drop-head for every segment; splices with a same-length document under the same and under another key-encryption key (payload, header, MAC line, manifest, single segment, tag, body); "+
 		"nine misbehaving unwrap callbacks; one-byte insertions (7 values) and deletions at every header offset and at segment landmarks; ~110 semantic header edits (JSON re-encodings that parse to the same values: white space, member order, member-name case, \\u escapes, duplicate and unknown members, unused base64 bits of np/wfk; changes of every field; MAC-line spellings; scheme line; line structure); "+
 		"for non-empty plaintexts every one of these header edits, every single-bit flip and every one-byte insertion/deletion of the header COMBINED with dropping all segments or keeping only the first k payload bytes; "+
-		"sticky source-reader errors at every header offset, around every boundary, mid-segment, in place of the final EOF, each alone (0, err) and together with the last data (n>0, err), and each with every member of an error family (private sentinel, io.ErrUnexpectedEOF plain and wrapped, io.ErrNoProgress, io.ErrClosedPipe, context.Canceled, wrapped os.ErrDeadlineExceeded, a net.Error-like timeout), plus seeded offsets with a seeded member; seeded compound mutations. "+
+		"sticky source-reader errors at every header offset, around every boundary, mid-segment, in place of the final EOF, each alone (0, err) and together with the last data (n>0, err), and each with every member of an error family (private sentinel, io.ErrUnexpectedEOF plain and wrapped, io.ErrNoProgress, io.ErrClosedPipe, context.Canceled, wrapped os.ErrDeadlineExceeded, a net.Error-like timeout), plus seeded offsets with a seeded member; seeded compound mutations; OVERLAP mode: for the unmodified document and a sample of mutants of every class, the Decrypt stream is read to k bytes (k in {1,10,65535,65546}), then complete other operations run (decrypt of an unrelated valid document, of a tampered one, of attacker-supplied garbage, an Encrypt), then the rest is read - or the stream is given up and closed after three such operations; the outer stream and every inner operation are judged by the same rule (an unmodified document must give exactly its plaintext). "+
 		"Huge tamper cases (after the ordinary ones, each run by one child; quick: AES-GCM, thorough: both ciphers): kit.Encrypt of a generated 4 GiB + 128 KiB + 100 byte plaintext (65539 segments, every one different) is streamed to a scratch file, then (a) segment 65536 is replaced by a copy of segment 0 and (b) segments 1 and 65537 are swapped, the tampered document is streamed through kit.Decrypt and the released bytes are compared position by position with the generator - the only mutants in which segment numbers differ in the upper half of the nonce's 32-bit counter. "+
 		"Every mutant is decrypted by the real kit.Decrypt through an all-at-once or seeded-chunk reader and read to the end. Rule: Decrypt error OR non-EOF stream error OR (bytes == plaintext AND EOF), and the released bytes are a prefix of the plaintext; "+
 		"for a source error an error is mandatory. A payload-less mutant that kit turns into \"\" + clean EOF is classified by the independent implementation (refenc.CheckHeader: does the MAC over the raw first two lines verify?): authentic header = the known format-level finding truncate@header-end/nonempty; header rejected by the reference = a violation with the mutation's own signature; only the MAC-line spelling differs (kit lenient, reference strict) = observed, not judged. Accepted mutants with identical plaintext whose header the reference rejects are counted (accepted_identical_but_header_fails_reference_mac), not judged. Mutants equal to the original are skipped. Evaluations = mutants judged; enumerated families are distinct by construction, seeded compound mutants are keyed by their description; non-trivial = every mutant (it differs from the original or carries a fault).")
@@ -1279,6 +1376,8 @@ func TestCheck(t *testing.T) {
 		"srcerr.surfaced", "truncate.at.segment-boundary", "truncate.at.header-end", "truncate.at.segment-tag", "truncate.at.segment-body", "srcerr.at.final-eof", "srcerr.at.final-eof+data",
 		"rejected_or_identical.seg-swap", "rejected_or_identical.splice-samekek", "rejected_or_identical.splice-otherkek", "rejected_or_identical.unwrap", "rejected_or_identical.extend",
 		"huge.tamper_rejected.seg-replace", "huge.tamper_rejected.seg-swap", "huge.rejected_exactly_at_segment_65536",
+		"overlap.cases", "overlap.outer_stream_was_half_read", "overlap.intact_stream_exact", "overlap.abandoned_cases", "overlap.abandoned_stream_prefix_ok", "overlap.abandoned_stream_closed",
+		"overlap.inner.decrypt-valid", "overlap.inner.decrypt-tampered", "overlap.inner.decrypt-garbage", "overlap.inner.encrypt_ok",
 		"rejected_or_identical.srcerr", "rejected_or_identical.srcerr(unexpected-eof)", "rejected_or_identical.srcerr(wrapped-unexpected-eof)", "rejected_or_identical.srcerr(context-canceled)", "srcerr.surfaced_as_the_injected_error",
 		"rejected_or_identical.header-edit+drop-payload", "rejected_or_identical.header-edit+cut-payload", "rejected_or_identical.bitflip+drop-payload", "payloadless_accepted.header_authentic"})
 	rec.Count("accepted_identical_but_header_fails_reference_mac", 0)
